@@ -60,3 +60,7 @@ mod kvv_memory {
 // here as a shape-independent second route for C09: the Kani 0.68 compiler aborts with an internal error
 // (kani-compiler/src/intrinsics.rs:243, assertion on an intrinsic's return type) while compiling the harness, and a
 // two-operation harness on MemoryKVVStore (C16) ran out of memory.  Both are recorded in DESIGN.md section 2.
+
+// A bounded harness for ExternalPersistHelper::check_hmac (fixed secret, empty mutation set, received tag of any length
+// 0..=33) was tried as a shape-independent route for C17: bitcoin_hashes probes cpuid with inline assembly (stubbed
+// away with kani::stub), then the symbolic HMAC-SHA256 did not finish within 20 minutes.  Not registered.
